@@ -149,6 +149,29 @@ def gen_case(rnd, kind, cid, maxops, stats, allow_ttl0=True, probe_every=True):
         else:
             emit("op %d find %d %d" % (now, victim, rnd.choice([0, 1])), now)
         nops = max(3, nops // 2)
+    if kind in ("utlru", "ut_map", "tlru") and rnd.random() < 0.25:
+        # refresh of an entry (newest / oldest / middle one) part-way through its life, then a purge
+        # (clean, or any call) at an instant between its old and its new deadline
+        t = cur_ttl[0] if kind != "tlru" else rnd.choice([5, 10, 50])
+        ks = universe[:rnd.choice([1, 2, 3])]
+        t0 = now
+        for k in ks:
+            emit("op %d insert %d %d %d 3" % (now, t if kind == "tlru" else 0, k, val()), now)
+            marks.append(now + t * MS)
+            now += rnd.choice([0, 1, MS])
+        now = max(now, t0 + (t * MS) // 2)
+        tgt = rnd.choice([ks[-1], ks[-1], ks[0], rnd.choice(ks)])
+        emit("op %d insert %d %d %d %d" % (now, t if kind == "tlru" else 0, tgt, val(), rnd.choice([3, 2])), now)
+        marks.append(now + t * MS)
+        now = t0 + t * MS + len(ks) * MS + rnd.choice([0, 1, MS // 2])
+        if now < marks[-1]:
+            fin = rnd.choice(["clean", "clean", "find", "size"])
+            if fin == "clean":
+                emit("op %d clean" % now, now)
+            elif fin == "find":
+                emit("op %d find %d 1" % (now, universe[-1]), now)
+            emit("op %d size" % now, now)
+        nops = max(3, nops // 2)
     if kind in ("utlru", "ut_map") and rnd.random() < 0.3:
         # clear() on a partially filled container with a hole, then a continuation long enough to
         # re-use every slot: a few writes, an erase, clear, then distinct new keys and lookups
